@@ -136,6 +136,13 @@ func H_selftest_idioms() {
 		vfAssert(ctx.Err() == context.Canceled && context.Cause(ctx) == cause, "WithCancelCause")
 		c2 := context.WithoutCancel(ctx)
 		vfAssert(c2.Err() == nil, "WithoutCancel")
+		type wkey struct{}
+		dctx, dcancel := context.WithTimeout(context.WithValue(context.Background(), wkey{}, 9), time.Hour)
+		wc := context.WithoutCancel(dctx)
+		_, wcHas := wc.Deadline()
+		vfAssert(!wcHas && wc.Value(wkey{}).(int) == 9 && wc.Done() == nil, "WithoutCancel-keeps-values-drops-deadline")
+		dcancel()
+		vfAssert(wc.Err() == nil && dctx.Err() != nil, "WithoutCancel-detached-from-parent-cancellation")
 		c3, cancel3 := context.WithTimeout(context.Background(), time.Hour)
 		_, has := c3.Deadline()
 		vfAssert(has && c3.Err() == nil, "WithTimeout")
